@@ -522,6 +522,7 @@ def run(ctx: Ctx) -> None:
     # `.zero n` and the padding behind short variables are never written: they rely on a memory that a reload really empties
     from ..resetrule import check_reset
     check_reset(ctx, r, "Memory", fields={"memory_file": "empty"})
+    check_reset(ctx, r, "BaseCacheMemorySystem", fields={"cache": "reconstruct", "memory": "delegate"})
     compare(r, m, sg, SEGMENT_REF, "segments", keep=lambda k, t: not (k == "call" and t.endswith(".get('directive')")), what="_segment splits the token list at the .data / .text directives in either order "
             "(a repeated or unknown directive is a ParserDirectiveException)")
     r.floor(6)
